@@ -33,6 +33,15 @@ type tapBus struct {
 	inst    *tapInst
 	ready   chan struct{}
 	dir     directive.Directive
+	logErrs bool // log the error list of idle callbacks too (`I<b>:<errs>`)
+}
+
+// reset makes the tap a fresh scripted bus again (the server object behind it is kept).
+func (t *tapBus) reset() {
+	t.mtx.Lock()
+	defer t.mtx.Unlock()
+	t.log, t.closed, t.h, t.idleCb, t.inst, t.dir = nil, false, nil, nil, nil, nil
+	t.ready = make(chan struct{}, 1)
 }
 
 type tapInst struct {
@@ -69,7 +78,22 @@ func (t *tapBus) deliverIdle(isIdle bool, errs []error) {
 	if t.closed || t.idleCb == nil {
 		return
 	}
-	t.log = append(t.log, "i"+bit(isIdle))
+	if t.logErrs && len(errs) != 0 {
+		var es []string
+		for _, err := range errs {
+			switch {
+			case err == nil:
+				es = append(es, "n")
+			case err == context.Canceled:
+				es = append(es, "c")
+			default:
+				es = append(es, err.Error())
+			}
+		}
+		t.log = append(t.log, "I"+bit(isIdle)+":"+strings.Join(es, "."))
+	} else {
+		t.log = append(t.log, "i"+bit(isIdle))
+	}
 	t.idleCb(isIdle, errs)
 }
 
@@ -301,6 +325,7 @@ func (e *engine) scriptedHistorySlow(evs []string, tokens []int) (sent []string,
 type scriptCtrl struct {
 	svc string
 	hch chan directive.ResolverHandler
+	srv chan string // the server ID of the directive the bus handed over
 }
 
 var busHistoryN int
@@ -312,6 +337,10 @@ func (c *scriptCtrl) HandleDirective(ctx context.Context, di directive.Instance)
 	d, ok := di.GetDirective().(bifrost_rpc.LookupRpcService)
 	if !ok || d.LookupRpcServiceID() != c.svc {
 		return nil, nil
+	}
+	select {
+	case c.srv <- d.LookupRpcServerID():
+	default:
 	}
 	return directive.R(directive.NewFuncResolver(func(rctx context.Context, h directive.ResolverHandler) error {
 		select {
@@ -328,7 +357,8 @@ func (c *scriptCtrl) HandleDirective(ctx context.Context, di directive.Instance)
 // toggles idle; the tap records what the bus actually delivers to the server.
 func (e *engine) busHistory(actions []string) (evs, sent []string, ret string) {
 	busHistoryN++
-	sc := &scriptCtrl{svc: fmt.Sprintf("verif-svc-%d", busHistoryN), hch: make(chan directive.ResolverHandler, 1)}
+	sc := &scriptCtrl{svc: fmt.Sprintf("verif-svc-%d", busHistoryN), hch: make(chan directive.ResolverHandler, 1), srv: make(chan string, 1)}
+	wantSrv := fmt.Sprintf("verif-srv-%d", busHistoryN)
 	rel, err := e.bus.AddController(e.ctx, sc, nil)
 	if err != nil {
 		return nil, nil, "add-controller-" + err.Error()
@@ -341,13 +371,16 @@ func (e *engine) busHistory(actions []string) (evs, sent []string, ret string) {
 	strm := &lookupStream{ctx: sctx}
 	done := make(chan error, 1)
 	go func() {
-		done <- srv.LookupRpcService(&bifrost_rpc_access.LookupRpcServiceRequest{ServiceId: sc.svc}, strm)
+		done <- srv.LookupRpcService(&bifrost_rpc_access.LookupRpcServiceRequest{ServiceId: sc.svc, ServerId: wantSrv}, strm)
 	}()
 	var h directive.ResolverHandler
 	select {
 	case h = <-sc.hch:
 	case <-time.After(10 * time.Second):
 		return nil, nil, "timeout-resolver"
+	}
+	if got := <-sc.srv; got != wantSrv {
+		defer func() { ret = fmt.Sprintf("resolver-was-asked-for-server-%q-not-%q", got, wantSrv) }()
 	}
 	select {
 	case <-t.ready:
@@ -566,6 +599,12 @@ func (e *engine) runC36() {
 		evs, sent, ret := e.busHistory(acts)
 		e.c36Compare(evs, sent, ret, "bus", true)
 	}
+
+	// the directive on the bus, resolver errors, request <-> directive, CallRpcService (c36b.go)
+	e.runC36Placed()
+	e.runC36Errors()
+	e.runC36ReqDir()
+	e.runC36Call()
 
 	// component IDs
 	vals := []string{"", "a", "svc/x", strings.Repeat("s", 200), "\xff\x00", "srv-1"}
